@@ -70,7 +70,12 @@ InDomain(L, req) ==
   /\ req = 0 \/ req \in Models(L)
   /\ \A i \in Idx(L) : L[i].ic \notin NullMarkers /\ L[i].m >= 1 /\ L[i].occ >= -1
   /\ BlocksOK(L, LAMBDA i : L[i].m)
-  /\ BlocksOK(L, LAMBDA i : <<L[i].m, ResKey(L[i])>>)
+  \* a residue is one contiguous block; a later, separate block of it may only REPEAT atoms already listed
+  \* (an alternate conformer written as a block of its own after the next residue)
+  /\ \A j \in 3..Len(L) :
+        (\E i \in 1..(j - 2) : /\ L[i].m = L[j].m /\ ResKey(L[i]) = ResKey(L[j])
+                               /\ \E q \in (i + 1)..(j - 1) : ResKey(L[q]) # ResKey(L[j]))
+        => \E i \in 1..(j - 1) : L[i].m = L[j].m /\ AtomKey(L[i]) = AtomKey(L[j])
   /\ \A i, j \in Idx(L) : (L[i].m = L[j].m /\ ResKey(L[i]) = ResKey(L[j])) => LabelOf(L[i]) = LabelOf(L[j])
   /\ \A i, j \in Idx(L) : (i < j /\ L[i].m = L[j].m /\ AtomKey(L[i]) # AtomKey(L[j]))
                            => ~OnSphere(L[i], L[j], ClashMilli)
